@@ -67,3 +67,6 @@ OBLIGATIONS += [dict(OB_DEPS, id='C03.deps')]
 
 from harness.nsrun import ns_fault_obligations, nsfaulted  # noqa: E402
 OBLIGATIONS += ns_fault_obligations('c03', 'C03', ['up-stream', 'down-stream'])
+
+from harness.coupload import OB_PROTO, protocol  # noqa: E402
+OBLIGATIONS += [dict(OB_PROTO, id='C03.proto', tier='thorough')]
